@@ -420,6 +420,15 @@ func TestDrv_C07(t *testing.T) {
 		for i := range rs {
 			rs[i] = genResult(r, i, 70000)
 		}
+		if s%4 == 2 && n >= 3 {
+			// attacks that began at the same local time in different zones, merged into one stream: the same wall-clock reading
+			// in consecutive records, at offsets an hour (or 45 minutes) apart - different instants
+			y, mo, d := rs[0].Timestamp.UTC().Date()
+			h, mi, sec := rs[0].Timestamp.UTC().Clock()
+			for i, off := range []int{0, 3600, 7200, -3600, 2700, 0}[:min(n, 6)] {
+				rs[i].Timestamp = time.Date(y, mo, d, h, mi, sec, r.Intn(1000000000), time.FixedZone("", off))
+			}
+		}
 		for _, c := range codecs {
 			tr.Emit("Reset", KV{"kind": "c07", "codec": c.name})
 			for i := range rs {
@@ -1081,6 +1090,15 @@ func TestDrv_C13(t *testing.T) {
 		for f := 0; f < k; f++ {
 			data, _ := encodeAll(codecByName(encs[f]), files[f])
 			paths[f] = filepath.Join(dir, fmt.Sprintf("c13_%d_%d.%s", s, f, encs[f]))
+			if s%4 == 3 {
+				// file names are names, whatever characters they are made of: some that a shell would read as patterns
+				// matching their neighbours
+				name := strconv.Itoa(f)
+				if odd := []string{"0", "[0]", "?", "*", "[0-9]", "{0,1}"}; f < len(odd) {
+					name = odd[f]
+				}
+				paths[f] = filepath.Join(dir, fmt.Sprintf("c13_%d_%s.dat", s, name))
+			}
 			must(os.WriteFile(paths[f], data, 0o644))
 			d := vegeta.DecoderFor(bytes.NewReader(data))
 			if d == nil {
